@@ -193,6 +193,10 @@ func c03BatchProgram(g *prog.Gen, idx int) []*prog.Op {
 // decision is about the key, whatever version id the request carries.
 func c03CopyVersionNext(g *prog.Gen, idx int, hist []*prog.Step) *prog.Op {
 	b, keys := "bkt-a", []string{"k1", "dir/k2", "obj.txt"}
+	if idx%4 == 3 {
+		// keys that differ only behind a '?': the resource of the decision is the whole key
+		keys = []string{"rep", "rep?draft", "obj.txt"}
+	}
 	n := len(hist)
 	total := 22 + idx%10
 	switch {
@@ -209,6 +213,10 @@ func c03CopyVersionNext(g *prog.Gen, idx int, hist []*prog.Step) *prog.Op {
 		pol.Stmts = append(pol.Stmts, prog.Stmt{Allow: true, Principals: []string{"usr1", "usr2"}, Actions: all, Resources: []string{b, res[3-g.R.Intn(2)*3+g.R.Intn(1)]}})
 		pol.Stmts = append(pol.Stmts, prog.Stmt{Allow: false, Principals: []string{[]string{"usr1", "*"}[g.R.Intn(2)]},
 			Actions: [][]string{{"s3:GetObject"}, {"s3:GetObject", "s3:GetObjectVersion"}, {"s3:DeleteObject"}, {"s3:*"}}[g.R.Intn(4)], Resources: []string{res[[]int{1, 4, 5, 0, 2}[g.R.Intn(5)]]}})
+		if idx%4 == 3 {
+			pol.Stmts = []prog.Stmt{{Allow: true, Principals: []string{"usr1", "usr2"}, Actions: all,
+				Resources: []string{b, b + "/rep", b + "/copy-1", b + "/c.txt", b + "/dir/copy-2", b + "/mp-*"}}}
+		}
 		return &prog.Op{Kind: "putBucketPolicy", Caller: "root", B: b, Policy: pol, Valid: true}
 	case n >= total:
 		return nil
